@@ -75,7 +75,22 @@ def c07(tier):
     return jobs, meta
 
 
+def c10(tier):
+    jobs = []
+    for kind in range(22):
+        jobs.append((H('ast', 'HarnessC10Walk'), P('ast'), [[kind, sub] for sub in range(23)], {}))
+    meta = {
+        'explanation': 'ast.Walk/walker.walk/ast.Patch executed symbolically on a root node of every kind (22) with a composite of every kind in a symbolically chosen child slot (depth 2), child slices of symbolic length 0..3, optional children symbolically nil; a recording visitor logs (event, node identity) and replaces the node at a symbolic Exit event index; compared with the event list derived from the struct declarations (field order) and with the slot contents after the walk',
+        'bounds': {'depth': 2, 'child slices': '0..3 elements', 'node kinds': '22 x (leaf children | one composite child of each of 22 kinds in each slot)', 'patch position': 'every Exit event (symbolic index)'},
+        'outside': ['trees deeper than 2 (the recursion is the same function)', 'replacement at Enter events', 'visitors that replace a node by a subtree that is then traversed'],
+        'assumptions': COMMON_ASSUME + ['the child-slot table of the harness (vfTree.build) lists every Node and []Node field of every node struct in declaration order'],
+        'must_reach': ['c10.walked', 'c10.patched'],
+    }
+    return jobs, meta
+
+
 PROPS = {
+    'C10': c10,
     'C06': c06,
     'C07': c07,
     'C14': c14,
